@@ -76,8 +76,10 @@ ASSUMPTIONS = ['identity aliasing only (overlapping views of distinct objects ar
                'are merged into one statement on the flattened element',
                'the Float64 model covers real float64 spaces (rn, uniform_discr, constant / array '
                'weights, power spaces; since round 4 also 2-d tensor and 2-d discretized spaces for '
-               'the element-wise bodies: stream prog-2d); complex, float32 and nested product spaces '
-               'are covered by the oracle only (extra_space_stream)',
+               'the element-wise bodies: stream prog-2d, and complex spaces for the 14 arithmetic-only '
+               'variants executed at K = complex doubles: stream complex-correspondence); the other '
+               'bodies on complex spaces, float32 and nested product spaces are covered by the '
+               'oracle only (extra_space_stream)',
                'round 4 bodies (Model/ProxAux.lean): the default in-place bridge is modelled on its '
                'small-size path (fewer than THRESHOLD_SMALL = 100 entries: out = 1*res + 0*res), the '
                'one all generated sizes take; GroupL1Gradient for exponent 2 and unweighted power '
@@ -209,6 +211,18 @@ def aux_plans():
     return out
 
 
+COMPLEX_MIDS = ('ccL2Sq', 'l2Sq', 'scaling', 'lincombOp', 'multiply', 'constant', 'zero')
+
+
+def plans_complex():
+    """Round 4: the arithmetic-only bodies of `prog` (the model's `arithOnly`) executed at
+    K = complex doubles and compared on cn / complex uniform_discr (oracle-only before)."""
+    out = [Plan(p.mid, p.flags, ('cn', 'cdiscr'), tol=True) for p in plans()
+           if p.mid in COMPLEX_MIDS]
+    out.append(Plan('box', '00', ('cn', 'cdiscr'), tol=True))
+    return out
+
+
 def plans_2d():
     """Round 4: the element-wise bodies of `prog` (plans whose spaces are the tensor-like kinds)
     on 2-d spaces, which were oracle-only before: same programs, data flattened in C order."""
@@ -327,6 +341,8 @@ def build(plan, kind, rng, xclass):
     elif xclass == 'small':
         x = x / 16
     gvals = grid(rng, N)
+    if kind in ('cn', 'cdiscr'):
+        gvals = gvals + 1j * grid(rng, N)
     sigvals = np.array([rng.choice([0.5, 1.0, 2.0, 4.0]) for _ in range(N)])
     lam, sigma = par['lam'], par['sigma']
     P = None
@@ -498,6 +514,91 @@ def model_line(c, alias, junk):
         bits(par['radius']), bits(par['eps']), bits(par['cw']), bits(par['a']), bits(par['b']),
         bl(c['x']), bl(junk), *[bl(b[k]) if b[k] is not None else '-' for k in
                                 ('g', 'sig', 'lo', 'up')])
+
+
+def cmodel_line(c, alias):
+    """Protocol line of the complex driver op `cprox` (real and imaginary parts separately)."""
+    par = c['par']
+    N = c['n'] * c['mc']
+    parts = ['cprox id={} flags={} alias={} n={}'.format(c['plan'].mid, c['plan'].flags or '-',
+                                                        int(alias), N)]
+    for k in ('lam', 'sigma', 'gamma', 'radius', 'eps', 'cw', 'a', 'b'):
+        parts.append('{}={}'.format(k, bits(par[k])))
+    bufs = dict(c['bufs'], x=c['x'], j=np.full(N, np.nan) + 1j * np.full(N, np.nan))
+    for k in ('x', 'j', 'g', 'sig', 'lo', 'up'):
+        v = bufs[k]
+        if v is None:
+            parts.append('{}=- {}i=-'.format(k, k))
+        else:
+            v = np.asarray(v, dtype=complex)
+            parts.append('{}={} {}i={}'.format(k, bl(v.real), k, bl(v.imag)))
+    return ' '.join(parts)
+
+
+def complex_stream(ctx, reps):
+    """The programs at K = complex: real code on cn / complex uniform_discr (non-aliased with
+    NaN-filled out, and aliased) vs the model program executed over complex doubles; the oracle
+    runs on every case as well."""
+    lines, pending = [], []
+    for plan in plans_complex():
+        for kind in plan.kinds:
+            for rep in range(reps):
+                cseed = ctx.rng.getrandbits(48)
+                try:
+                    c = build(plan, kind, cseed, 'gen')
+                    c['cseed'] = cseed
+                except Exception as e:  # noqa
+                    ctx.disagree({'kind': 'construct', 'id': plan.mid, 'flags': plan.flags,
+                                  'space': kind}, 'cannot construct: {}: {}'.format(
+                                      type(e).__name__, str(e)[:120]), 'model program exists',
+                                 stream='complex-correspondence')
+                    continue
+                space = c['space']
+                x_elem = make_elem(space, c['x'])
+                second = make_elem(space, c['bufs']['g']) if plan.mid == 'lincombOp' else None
+                frames = [(nm, e) for nm, e in c['elems'].items() if hasattr(e, 'space')]
+                res, problems = oracle(ctx, None, None, c['P'], x_elem, space, True, second, frames)
+                desc = describe(c)
+                key = 'prox {} flags={} space={} xclass=gen'.format(plan.mid, plan.flags or '-', kind)
+                if problems:
+                    ctx.violation(key, '; '.join(problems)[:600], desc)
+                st = res['oop'][0]
+                ctx.case(('complex', plan.mid, plan.flags, kind) if st == 'ok' and
+                         np.any(res['oop'][1] != 0) and np.any(np.imag(res['oop'][1]) != 0)
+                         else None)
+                ctx.hit('complex/{}/{}'.format(plan.mid, plan.flags or '-'))
+                if st != 'ok':
+                    ctx.err('complex:' + st.split(':')[1])
+                    continue
+                lines.append(cmodel_line(c, False))
+                lines.append(cmodel_line(c, True))
+                pending.append((c, desc, res))
+    outs = core.run_driver('C10', lines)
+    for k, (c, desc, res) in enumerate(pending):
+        for alias, ans in ((False, outs[2 * k]), (True, outs[2 * k + 1])):
+            mode = 'alias' if alias else 'junk'
+            if res[mode][0] != 'ok' or not ans.startswith('ok '):
+                ctx.disagree(dict(desc, alias=alias), res[mode][0], ans[:200],
+                             stream='complex-correspondence')
+                continue
+            f = dict(t.split('=', 1) for t in ans.split()[1:])
+
+            def cbuf(i):
+                return np.array(parse_bl(f['b%d' % i])) + 1j * np.array(parse_bl(f['c%d' % i]))
+            mout = cbuf(0 if alias else 1)
+            if not same(mout, res[mode][1], True):
+                ctx.disagree(dict(desc, alias=alias),
+                             'out = {}'.format([complex(v) for v in res[mode][1]][:6]),
+                             'out = {}'.format([complex(v) for v in mout][:6]),
+                             stream='complex-correspondence')
+                continue
+            if not alias and not same(cbuf(0), c['x'], False):
+                ctx.disagree(dict(desc, alias=alias), 'x unchanged', 'model writes x',
+                             stream='complex-correspondence')
+            for nm, bid in (('g', 2), ('sig', 3)):
+                if c['bufs'][nm] is not None and not same(cbuf(bid), c['bufs'][nm], False):
+                    ctx.disagree(dict(desc, alias=alias), nm + ' unchanged', 'model writes ' + nm,
+                                 stream='complex-correspondence')
 
 
 def same(a, b, tol):
@@ -895,7 +996,8 @@ def describe(c):
             'cseed': c.get('cseed'), 'n': c['n'], 'mc': c['mc'], 'xclass': c['xclass'],
             'par': {k: v for k, v in c['par'].items()},
             'x': [str(v) for v in c['x']] if np.iscomplexobj(c['x']) else [float(v) for v in c['x']],
-            'bufs': {k: (None if v is None else [float(t) for t in v])
+            'bufs': {k: (None if v is None else
+                         [str(t) for t in v] if np.iscomplexobj(v) else [float(t) for t in v])
                      for k, v in c['bufs'].items()}}
 
 
@@ -1485,7 +1587,8 @@ def report_unhit(ctx):
          'aux-branch/gradHuber/large(x/norm)', 'aux-branch/gradHuber/small(x/gamma)',
          'aux-branch/gradGroupL1/some-zero-norm', 'aux-branch/gradGroupL1/nonzero',
          'aux-branch/absPow/p=0.5', 'aux-branch/absPow/p=2.0', 'aux-branch/absPow/p=0.25'] + \
-        ['prog-2d/{}/{}'.format(p.mid, k) for p in plans_2d() for k in p.kinds]
+        ['prog-2d/{}/{}'.format(p.mid, k) for p in plans_2d() for k in p.kinds] + \
+        ['complex/{}/{}'.format(p.mid, p.flags or '-') for p in plans_complex()]
     unhit = [b for b in expected if not ctx.branches.get(b)]
     ctx.extra['unhit_model_branches'] = unhit
     if unhit and not ctx.quick:
@@ -1514,6 +1617,7 @@ def run(ctx):
         ctx.hit('prog-2d/{}/{}'.format(c['plan'].mid, c['kind']))
     outs = core.run_driver('C10', lines)
     compare_model(ctx, pending, outs)
+    complex_stream(ctx, 2 if ctx.quick else 20)
     report_unhit(ctx)
 
 
